@@ -35,7 +35,7 @@ MUTANTS = [
     ('sline-indent-plus-one', LAY, "            yield SLine(indent)\n", "            yield SLine(indent + 1)\n", ['C04']),
     ('flatchoice-wrong-branch-flat', LAY, "            elif mode is FLAT_MODE:\n                triplestack.append((indent, mode, doc.when_flat))\n            else:\n                raise ValueError\n        elif isinstance(doc, Nest):\n            # Increase indentation and process",
      "            elif mode is FLAT_MODE:\n                triplestack.append((indent, mode, doc.when_broken))\n            else:\n                raise ValueError\n        elif isinstance(doc, Nest):\n            # Increase indentation and process", ['C06']),
-    ('annotation-pop-before-child', LAY, "            triplestack.append((indent, mode, SAnnotationPop(doc.annotation)))\n            triplestack.append((indent, mode, doc.doc))", "            triplestack.append((indent, mode, doc.doc))\n            triplestack.append((indent, mode, SAnnotationPop(doc.annotation)))", ['C04', 'C16']),
+    ('annotation-pop-before-child', LAY, "            triplestack.append((indent, mode, SAnnotationPop(doc.annotation)))\n            triplestack.append((indent, mode, doc.doc))", "            triplestack.append((indent, mode, doc.doc))\n            triplestack.append((indent, mode, SAnnotationPop(doc.annotation)))", ['C04']),
     ('alwaysbreak-not-forcing', LAY, "        elif isinstance(doc, AlwaysBreak):\n            return False\n        elif doc is HARDLINE:\n            # In the fast algorithm", "        elif isinstance(doc, AlwaysBreak):\n            triplestack.append((indent, mode, doc.doc))\n        elif doc is HARDLINE:\n            # In the fast algorithm", ['C04']),
     ('concat-drops-last-child', DT, "            else:\n                normalized_docs.append(doc)\n\n        if not normalized_docs:\n            return NIL\n\n        if len(normalized_docs) == 1:", "            else:\n                normalized_docs.append(doc)\n\n        if len(normalized_docs) > 3:\n            normalized_docs.pop()\n\n        if not normalized_docs:\n            return NIL\n\n        if len(normalized_docs) == 1:", ['C04', 'C01']),
     ('fits-strict', LAY, "    chars_left = max_width\n\n    while chars_left >= 0:\n        if not triplestack:\n            return True\n\n        indent, mode, doc = triplestack.pop()\n\n        if doc is NIL:", "    chars_left = max_width\n\n    while chars_left > 0:\n        if not triplestack:\n            return True\n\n        indent, mode, doc = triplestack.pop()\n\n        if doc is NIL:", ['C06']),
@@ -78,7 +78,9 @@ MUTANTS = [
     ('pprint-ignores-end', INIT, "    default_render_to_stream(stream, sdocs)\n    if end:\n        stream.write(end)", "    default_render_to_stream(stream, sdocs)\n    if end:\n        stream.write('\\n')", ['C18']),
     ('cpprint-drops-max-seq-len', INIT, "            ribbon_width=ribbon_width,\n            max_seq_len=max_seq_len,\n            sort_dict_keys=sort_dict_keys,\n        )\n    )\n    stream = (\n        # This is not in _default_config in case\n        # sys.stdout changes.\n        sys.stdout\n        if stream is _UNSET_SENTINEL\n        else stream\n    )\n    colored_render_to_stream", "            ribbon_width=ribbon_width,\n            max_seq_len=_UNSET_SENTINEL,\n            sort_dict_keys=sort_dict_keys,\n        )\n    )\n    stream = (\n        # This is not in _default_config in case\n        # sys.stdout changes.\n        sys.stdout\n        if stream is _UNSET_SENTINEL\n        else stream\n    )\n    colored_render_to_stream", ['C18']),
     # ---- C16
-    ('color-reset-omitted', COL, "    if colorstack:\n        stream.write(str(colorful.reset))", "    if False:\n        stream.write(str(colorful.reset))", ['C16']),
+    ('color-leaks-when-stack-empties', COL, "                else:\n                    stream.write(str(colorful.reset))", "                else:\n                    pass", ['C16']),
+    ('enclosing-color-not-restored', COL, "                if colorstack:\n                    stream.write(str(colorstack[-1]))", "                if colorstack:\n                    pass", ['C16']),
+    ('color-cache-keyed-by-name-across-styles', COL, "    color_cache = {}\n", "    color_cache = _GLOBAL_COLOR_CACHE\n", ['C16']),
     ('token-mapping-removed', COL, "    Token.NUMBER_FLOAT: token.Number.Float,\n", "", ['C16']),
     # ---- C19
     ('line-normalized-in-place', DT, "        return FlatChoice(\n            self._when_broken,\n            self._when_flat,\n            normalize_on_access=True\n        )", "        self.normalize_on_access = True\n        return self", ['C19']),
@@ -86,6 +88,7 @@ MUTANTS = [
 ]
 
 EXTRA_SETUP = {
+    'color-cache-keyed-by-name-across-styles': (COL, "default_dark_style = styles.get_style_by_name('monokai')", "_GLOBAL_COLOR_CACHE = {}\ndefault_dark_style = styles.get_style_by_name('monokai')"),
     'visited-shared-across-calls': (PP, "_DEFERRED_DISPATCH_BY_NAME = {}\n", "_DEFERRED_DISPATCH_BY_NAME = {}\n_SHARED_VISITED = set()\n"),
 }
 
